@@ -78,32 +78,35 @@ Theorem C20_export_faithful_refuted :
 Proof. exact export_faithful_refuted. Qed.
 Print Assumptions C20_export_faithful_refuted.
 
-(* ... and for worlds / access under SerialAccess (D): the world added by enforce()
-   has no frame, so neither it nor its reflexive pair is exported *)
-Theorem C20_export_access_refuted :
+(* BEFORE fix 422cec3 (run_old) the clause "exported worlds / access = R" failed under
+   SerialAccess (D): the world added by enforce() had no frame and was not exported *)
+Theorem C20_export_access_old_refuted :
   exists L st,
-    run L [] (fun _ => []) [OAtomic 0 0 VT] = Some st /\ ml_modal L = true /\
+    run_old L [] (fun _ => []) [OAtomic 0 0 VT] = Some st /\ ml_modal L = true /\
     In (1, 1) (ap (s_R st)) /\ In 1 (aw (s_R st)) /\
     ~ In (1, 1) (x_access (export L st)) /\ ~ In 1 (x_worlds (export L st)) /\
     value_of L st (SMod Possibility (SMod Possibility (SAtom 0))) 0 = Val VF.
-Proof. exact export_access_refuted. Qed.
-Print Assumptions C20_export_access_refuted.
+Proof. exact export_access_old_refuted. Qed.
+Print Assumptions C20_export_access_old_refuted.
 
-(* the hypotheses of export_faithful hold after every history of API calls; and unless the
-   logic's access class is SerialAccess the exported access relation is exactly R *)
+(* after every history of API calls followed by finish() as coded now, the hypotheses of
+   export_faithful hold and — for EVERY access class, SerialAccess (D) included — the exported
+   worlds are exactly the worlds of R and the exported access pairs exactly R *)
 From PT Require Import Sem.ModelRun Sem.ReachProofs.
 Theorem C20_export_faithful_history L cord pord os st :
-  vals_closed L = true -> (ml_classical L = true -> val_ok L VT = true) ->
-  forallb (op_ok L) os = true ->
+  (ml_classical L = true -> val_ok L VT = true) -> forallb (op_ok L) os = true ->
   (forall st0, apply_ops L init_state os = Some st0 -> forall c, In c cord -> In c (s_consts st0)) ->
   run L cord pord os = Some st ->
   state_wfb L st = true /\ s_finished st = true /\
-  (ml_modal L = true -> ml_access L <> AKSerial ->
-   forall a b, In (a, b) (x_access (export L st)) <-> In (a, b) (ap (s_R st))).
+  (ml_modal L = true ->
+   (forall w, In w (x_worlds (export L st)) <-> In w (aw (s_R st))) /\
+   (forall a b, In (a, b) (x_access (export L st)) <-> In (a, b) (ap (s_R st)))).
 Proof.
-  intros VC CT OK Hc Hr.
-  destruct (run_wf L cord pord os st VC CT OK Hc Hr) as [WF [AW [F Sub]]].
+  intros CT OK Hc Hr.
+  destruct (run_wf L cord pord os st CT OK Hc Hr) as [[WF [AW [F Sub]]] _].
   split; [exact WF|]. split; [exact F|].
-  intros M NS. apply (export_access_exact L st M AW (Sub NS)).
+  intro M. destruct (export_worlds L st M) as [_ [_ W]]. split.
+  - intro w. rewrite W. symmetry. apply Sub.
+  - apply (export_access_exact L st M AW). intros w Hw. apply Sub. exact Hw.
 Qed.
 Print Assumptions C20_export_faithful_history.
